@@ -170,7 +170,7 @@ theorem pieces_length (dfs : List TS) (ub : List Int) (n : Nat) (l u : Bool) (hl
 /-- the lower bound of piece `i` -/
 def loBound (ub : List Int) (i : Nat) : Bound := if i = 0 then .none else .date (ub.getD (i - 1) 0)
 
-theorem pieces_getElem (dfs : List TS) (ub : List Int) (n : Nat) (l u : Bool) (hlen : dfs.length = ub.length)
+theorem pieces_getElem (dfs : List TS) (ub : List Int) (n : Nat) (l u : Bool) (_hlen : dfs.length = ub.length)
     (i : Nat) (hi : i < (pieces dfs ub n l u).length) (hi' : i < ub.length) (hf : i < (framesOf dfs n).length) :
     (pieces dfs ub n l u)[i] = ⟨(framesOf dfs n)[i].width,
       (framesOf dfs n)[i].rows.filter fun r => inWindow l u (loBound ub i) (.date ub[i]) r.1⟩ := by
@@ -178,10 +178,10 @@ theorem pieces_getElem (dfs : List TS) (ub : List Int) (n : Nat) (l u : Bool) (h
   congr 2
   funext r
   cases i with
-  | zero => simp [loBound, optDate]
+  | zero => simp [loBound]
   | succ k =>
     have hk : k < ub.length := by omega
-    simp [loBound, optDate, List.getElem_dropLast, List.getD_eq_getElem?_getD, hk]
+    simp [loBound, List.getElem_dropLast, List.getD_eq_getElem?_getD, hk]
 
 theorem unionIndex_sorted (dfs : List TS) : (unionIndex dfs).Pairwise (· < ·) := by
   have nd : (unionIndex dfs).Nodup := (List.mergeSort_perm _ _).nodup_iff.mpr (Bitemp.nodup_eraseDups _)
